@@ -47,6 +47,9 @@ def main(argv=None):
         return replay(a.path)
     seed = int(os.environ.get("VERIF_SEED", "0") or 0)
     t0 = time.time()
+    if a.prop in ("C06", "C19"):
+        from pv import ccheck
+        return ccheck.main(a.prop, a.tier, seed)
     from pv import plans
     plan = plans.PLANS.get(a.prop)
     if plan is None:
